@@ -139,8 +139,8 @@ Section RecordModes.
   Notation mrec := (mrec C W).
   Notation payload := (payload C W).
 
-  (* the mode-free part of validate: updated columns and all errors, or the
-     failed self-consistency assertion *)
+  (* the mode-free part of validate: updated columns and all errors (it never
+     fails: the self-consistency problems are errors like the others) *)
   Definition rv_core (ln : option Z) (cols : rec payload) (errs_in : list verr) (reset : bool)
              (sch : option scheme) : res (rec payload * list verr) :=
     let errs0 := if reset then [] else errs_in in
@@ -152,9 +152,8 @@ Section RecordModes.
       end in
     let '(es, found_none, slots') := validate_slots sem (rlist cols) 0 reset sch ln in
     let upd (c : col payload) := with_perrs c (column_validate sem c reset sch None) in
-    if negb found_none && negb (asserts_hold cols) then Raise AssertionError
-    else Ok ({| rdict := map (fun kc => (fst kc, upd (snd kc))) (rdict cols); rlist := slots' |},
-             errs0 ++ e_count ++ es).
+    Ok ({| rdict := map (fun kc => (fst kc, upd (snd kc))) (rdict cols); rlist := slots' |},
+        errs0 ++ e_count ++ es ++ (if found_none then [] else sync_errs cols ln)).
 
   Definition mk_mrec (ln : option Z) (md : mode) (cols : rec payload) (errs : list verr) : mrec :=
     {| mline := ln; mcols := cols; merrs := errs; mmode := md |}.
@@ -167,7 +166,7 @@ Section RecordModes.
   Proof.
     unfold record_validate, rv_core, finish.
     destruct (validate_slots sem (rlist (mcols r)) 0 reset sch (mline r)) as [[es fn] slots'].
-    destruct (negb fn && negb (asserts_hold (mcols r))); reflexivity.
+    reflexivity.
   Qed.
 
   Lemma rv_core_not_format ln cols errs reset sch :
@@ -177,7 +176,7 @@ Section RecordModes.
     end.
   Proof.
     unfold rv_core. destruct (validate_slots sem (rlist cols) 0 reset sch ln) as [[es fn] slots'].
-    destruct (negb fn && negb (asserts_hold cols)); [discriminate|exact I].
+    exact I.
   Qed.
 
   Definition same_mrec (a b : mrec) : Prop := mline a = mline b /\ mcols a = mcols b /\ merrs a = merrs b.
